@@ -9,6 +9,7 @@ import (
 	"sort"
 	"strings"
 	"sync"
+	"sync/atomic"
 	"time"
 
 	"gabiverif/smt"
@@ -23,22 +24,23 @@ const TargetModule = "github.com/privacybydesign/gabi"
 type ModelFn func(ex *Exec, fn *ssa.Function, args []Value) (Value, bool)
 
 type Program struct {
-	Prog  *ssa.Program
-	Fset  *token.FileSet
-	Pkgs  map[string]*ssa.Package
+	Prog   *ssa.Program
+	Fset   *token.FileSet
+	Pkgs   map[string]*ssa.Package
 	models map[string]ModelFn
 
 	QuickSolver   string
 	QuickLimit    time.Duration
 	QuickFallback bool
 	FinalLimit    time.Duration
+	inconclN      int32 // inconclusive solver answers in the running obligation (fail fast, see tooManyInconclusive)
 	MaxSteps      int
 	Workers       int
 
 	cache sync.Map
 	// distinct final queries answered (key -> result)
-	finalMu sync.Mutex
-	finals  map[string]smt.Result
+	finalMu              sync.Mutex
+	finals               map[string]smt.Result
 	branchQ, branchUnsat int
 }
 
@@ -106,28 +108,28 @@ type SourceOverride struct {
 }
 
 type Obligation struct {
-	Prop     string   `json:"prop"`
-	Name     string   `json:"name"`
-	Pkg      string   `json:"pkg"`  // import path relative to the module ("" = root)
-	Func     string   `json:"func"` // harness function
-	Tier     string   `json:"tier"` // "quick" (also run in thorough) or "thorough"
-	Unwind   int      `json:"unwind"`
-	MaxPaths int      `json:"maxpaths"`
-	Asserts  []string `json:"asserts"` // labels that must be reached on a satisfiable path
-	AllowPanic bool   `json:"allow_panic"` // reachable panics are not findings
-	AllowUnwind bool  `json:"allow_unwind"` // paths cut at the unwinding bound are a stated bound, not a failure
-	Expect   string   `json:"expect"`   // "" (must hold) | documentation only
-	Note     string   `json:"note"`
-	FinalLimitS int   `json:"final_limit_s"`
+	Prop        string   `json:"prop"`
+	Name        string   `json:"name"`
+	Pkg         string   `json:"pkg"`  // import path relative to the module ("" = root)
+	Func        string   `json:"func"` // harness function
+	Tier        string   `json:"tier"` // "quick" (also run in thorough) or "thorough"
+	Unwind      int      `json:"unwind"`
+	MaxPaths    int      `json:"maxpaths"`
+	Asserts     []string `json:"asserts"`      // labels that must be reached on a satisfiable path
+	AllowPanic  bool     `json:"allow_panic"`  // reachable panics are not findings
+	AllowUnwind bool     `json:"allow_unwind"` // paths cut at the unwinding bound are a stated bound, not a failure
+	Expect      string   `json:"expect"`       // "" (must hold) | documentation only
+	Note        string   `json:"note"`
+	FinalLimitS int      `json:"final_limit_s"`
 	// thorough-only overrides
-	Params map[string]int `json:"params"`
+	Params         map[string]int `json:"params"`
 	ThoroughParams map[string]int `json:"thorough_params"`
-	Merge []string `json:"merge"` // side-effect-free callees whose paths are merged into ite terms
+	Merge          []string       `json:"merge"` // side-effect-free callees whose paths are merged into ite terms
 	// SourceOverrides: literal single-occurrence replacements in /repo source files, applied in the overlay for the
 	// symbolic run and the native replays of this property (used to shrink iteration-count constants: a stated bound)
 	SourceOverrides []SourceOverride `json:"source_overrides"`
-	mergeM map[string]bool
-	tierRun string
+	mergeM          map[string]bool
+	tierRun         string
 }
 
 func (o *Obligation) mergeSet() map[string]bool {
@@ -160,18 +162,18 @@ func (o *Obligation) Param(name string, def int) int {
 }
 
 type PathResult struct {
-	End       pathEnd
-	Findings  []*Finding
-	Alts      [][]int
-	Taken     []int
-	Reached   map[string]bool
-	Funcs     map[string]bool
-	Stubs     map[string]bool
-	Inconcl   []string
-	Asserts   map[string]int
-	NFinal    int
-	Samples   []string
-	Steps     int
+	End      pathEnd
+	Findings []*Finding
+	Alts     [][]int
+	Taken    []int
+	Reached  map[string]bool
+	Funcs    map[string]bool
+	Stubs    map[string]bool
+	Inconcl  []string
+	Asserts  map[string]int
+	NFinal   int
+	Samples  []string
+	Steps    int
 }
 
 type ObResult struct {
@@ -301,6 +303,7 @@ func (ex *Exec) interpretInit(init *ssa.Function) {
 // RunObligation explores all paths of a harness.
 func (p *Program) RunObligation(ob *Obligation, tier string) *ObResult {
 	ob.tierRun = tier
+	atomic.StoreInt32(&p.inconclN, 0)
 	smt.Distribute = ob.Param("expand", 0) == 1
 	t0 := time.Now()
 	r := &ObResult{Ob: ob, Ends: map[string]int{}, EndSamples: map[string][]string{}, Reached: map[string]bool{},
@@ -339,6 +342,13 @@ func (p *Program) RunObligation(ob *Obligation, tier string) *ObResult {
 			}
 			pre := queue[len(queue)-1]
 			queue = queue[:len(queue)-1]
+			if p.tooManyInconclusive() {
+				// fail fast: the obligation is inconclusive anyway, do not spend hours on solver time-outs
+				queue = nil
+				mu.Unlock()
+				cond.Broadcast()
+				continue
+			}
 			if r.Paths >= maxPaths {
 				r.Budget = true
 				queue = nil
@@ -404,6 +414,10 @@ func (p *Program) RunObligation(ob *Obligation, tier string) *ObResult {
 	r.WallS = time.Since(t0).Seconds()
 	return r
 }
+
+const maxInconclusive = 12
+
+func (p *Program) tooManyInconclusive() bool { return atomic.LoadInt32(&p.inconclN) >= maxInconclusive }
 
 // ReadOverlay maps every file of harnessDir/<pkg>/ onto repo/<pkg>/.
 func ReadOverlay(harnessDir, repo string) (map[string][]byte, map[string]string, error) {
